@@ -35,8 +35,16 @@ def main():
     ids = [c['property_id'] for c in json.load(open(os.path.join(ROOT, 'MANIFEST.json')))['checks']]
 
     def reset():
-        sh(['git', '-C', CLONE, 'checkout', '--', '.'])
+        sh(['git', '-C', CLONE, 'reset', '-q', '--hard', 'HEAD'])
         sh(['git', '-C', CLONE, 'clean', '-fdq'])
+
+    def apply(patch):
+        """a patch written against an earlier commit of /repo is merged three-way"""
+        r = sh(['git', '-C', CLONE, 'apply', patch])
+        if r.returncode != 0:
+            reset()
+            r = sh(['git', '-C', CLONE, 'apply', '--3way', patch])
+        return r
 
     for job in jobs:
         if job.startswith('NEW:'):
@@ -49,12 +57,12 @@ def main():
             if not os.path.exists(os.path.join(src, 'patch.diff')):
                 print(name, 'no patch', flush=True); continue
             conf = {}
-            conf['patch_applies'] = sh(['git', '-C', CLONE, 'apply', os.path.join(src, 'patch.diff')]).returncode == 0
+            conf['patch_applies'] = apply(os.path.join(src, 'patch.diff')).returncode == 0
             conf['compiles'] = sh(['go', 'build', './...'], cwd=CLONE).returncode == 0
             conf['existing_tests_pass_with_change'] = sh(['go', 'test', '-vet=off', '-count=1', './...'], cwd=CLONE, timeout=1500).returncode == 0
             shutil.copyfile(os.path.join(src, 'demo_test.go'), os.path.join(CLONE, 'zz_seed_demo_test.go'))
             conf['demo_fails_with_change'] = sh(['go', 'test', '-vet=off', '-count=1', '-run', 'ZZSeed', '.'], cwd=CLONE, timeout=900).returncode != 0
-            sh(['git', '-C', CLONE, 'checkout', '--', '.'])
+            sh(['git', '-C', CLONE, 'reset', '-q', '--hard', 'HEAD'])
             conf['demo_passes_on_clean_tree'] = sh(['go', 'test', '-vet=off', '-count=1', '-run', 'ZZSeed', '.'], cwd=CLONE, timeout=900).returncode == 0
             reset()
             if not all(conf.values()):
@@ -73,7 +81,7 @@ def main():
             if not os.path.exists(os.path.join(src, 'patch.diff')):
                 print(name, 'no patch', flush=True); continue
             conf = {}
-            conf['patch_applies'] = sh(['git', '-C', CLONE, 'apply', os.path.join(src, 'patch.diff')]).returncode == 0
+            conf['patch_applies'] = apply(os.path.join(src, 'patch.diff')).returncode == 0
             conf['compiles'] = sh(['go', 'build', './...'], cwd=CLONE).returncode == 0
             conf['existing_tests_pass_with_change'] = sh(['go', 'test', '-vet=off', '-count=1', './...'], cwd=CLONE, timeout=1500).returncode == 0
             reset()
@@ -88,7 +96,7 @@ def main():
         patch = os.path.join(ROOT, 'seeded', name, 'patch.diff')
         if not os.path.exists(patch):
             continue
-        r = sh(['git', '-C', CLONE, 'apply', patch])
+        r = apply(patch)
         if r.returncode != 0:
             print(name, 'patch does not apply:', r.stderr[:200], flush=True); continue
         res = {}
